@@ -41,6 +41,15 @@ var hashPool = func() []cid.Cid {
 		}
 		out[i] = c
 	}
+	// distinct identifiers over ONE digest: CIDv0, and CIDv1 with the dag-pb / dag-cbor / raw codecs (distinct
+	// entries as far as the ordering is concerned: their hashes differ)
+	for i := 0; i < 4; i++ {
+		sum, err := mh.Sum([]byte(fmt.Sprintf("verif-shared-digest-%d", i)), mh.SHA2_256, -1)
+		if err != nil {
+			panic(err)
+		}
+		out = append(out, cid.NewCidV0(sum), cid.NewCidV1(cid.DagProtobuf, sum), cid.NewCidV1(cid.DagCBOR, sum), cid.NewCidV1(cid.Raw, sum))
+	}
 	return out
 }()
 
@@ -56,7 +65,7 @@ func genC19(t *rapid.T) c19Prog {
 		rapid.IntRange(0, 5),
 		rapid.IntRange(0, 1<<62),
 	)
-	hashes := rapid.Permutation(seq(len(hashPool))).Draw(t, "hashes")[:n]
+	hashes := rapid.Permutation(seq(64)).Draw(t, "hashes")[:n] // the plain identifiers; the shared-digest ones are placed below
 	p := c19Prog{}
 	for i := 0; i < n; i++ {
 		p.Pool = append(p.Pool, synthEntry{
@@ -64,6 +73,17 @@ func genC19(t *rapid.T) c19Prog {
 			ID:   rapid.SampledFrom(idPool).Draw(t, "id"),
 			Hash: hashes[i],
 		})
+	}
+	// sometimes the first entries are the distinct identifiers of one shared digest, often with equal clocks so
+	// that the hash decides
+	if rapid.IntRange(0, 3).Draw(t, "sharedDigest") == 0 {
+		g := rapid.IntRange(0, 3).Draw(t, "group")
+		for i := 0; i < n && i < 4; i++ {
+			p.Pool[i].Hash = 64 + 4*g + i
+			if i > 0 && rapid.Bool().Draw(t, "sameClock") {
+				p.Pool[i].Time, p.Pool[i].ID = p.Pool[0].Time, p.Pool[0].ID
+			}
+		}
 	}
 	p.Perm = rapid.SliceOfN(rapid.IntRange(0, 1<<20), n+3, n+3).Draw(t, "perm")
 	p.Dups = rapid.SliceOfN(rapid.IntRange(0, n-1), 0, 3).Draw(t, "dups")
